@@ -315,6 +315,29 @@ func init() {
 		ex.ghost["timers"] = append(timers, c)
 		return c
 	})
+	// time.AfterFunc: the callback runs on its own goroutine when the harness fires the timers
+	regStub("time.AfterFunc", func(ex *Exec, fn *ssa.Function, args []Value) Value {
+		tk := ex.namedType("time", "Timer")
+		o := ex.newCells(tk, ex.zero(tk), "timer")
+		afs, _ := ex.ghost["afterfuncs"].([]*afterFunc)
+		ex.ghost["afterfuncs"] = append(afs, &afterFunc{obj: o, f: args[1]})
+		return &Ptr{Obj: o}
+	})
+	regStub("(*time.Timer).Stop", func(ex *Exec, fn *ssa.Function, args []Value) Value {
+		p := args[0].(*Ptr)
+		ex.nilCheck(p)
+		afs, _ := ex.ghost["afterfuncs"].([]*afterFunc)
+		for _, a := range afs {
+			if a.obj == p.Obj {
+				if a.state == 0 {
+					a.state = 2
+					return Bool(true)
+				}
+				return Bool(false)
+			}
+		}
+		return Bool(false)
+	})
 	suffixStubs["vfTick"] = func(ex *Exec, fn *ssa.Function, args []Value) Value {
 		// deliver one tick on every ticker created so far (dropped when the previous one is still pending, as in Go)
 		tickers, _ := ex.ghost["tickers"].([]*ChanV)
@@ -333,6 +356,14 @@ func init() {
 			}
 		}
 		ex.ghost["timers"] = nil
+		afs, _ := ex.ghost["afterfuncs"].([]*afterFunc)
+		for _, a := range afs {
+			if a.state == 0 {
+				a.state = 1
+				ex.ghost["nextGoName"] = fmt.Sprintf("timer%d", a.obj.ID)
+				ex.sched.spawn(a.f.(*FuncV), nil, nil)
+			}
+		}
 		return nil
 	}
 	suffixStubs["vfSettle"] = func(ex *Exec, fn *ssa.Function, args []Value) Value {
@@ -457,6 +488,13 @@ func init() {
 		ex.ghost["clock.nsec"] = args[1].(*Term)
 		return nil
 	}
+}
+
+// afterFunc is a pending time.AfterFunc timer (state 0 pending, 1 fired, 2 stopped).
+type afterFunc struct {
+	obj   *Object
+	f     Value
+	state int
 }
 
 func (ex *Exec) freshName(prefix string) string {
